@@ -165,3 +165,19 @@ Fixpoint omap {A} (f : A -> outcome A) (l : list A) : outcome (list A) :=
   | [] => Val []
   | x :: l' => let! y := f x in let! r := omap f l' in Val (y :: r)
   end.
+
+(* l.iter().max(): the largest element; None on an empty sequence *)
+Definition max_opt (l : list N) : option N :=
+  match l with
+  | [] => None
+  | x :: l' => Some (fold_left N.max l' x)
+  end.
+
+(* dst[a..b].copy_from_slice(src): panics unless a <= b <= dst.len() and src.len() = b - a *)
+Definition copy_into {A} (dst : list A) (a b : N) (src : list A) : outcome (list A) :=
+  if (a <=? b) && (b <=? len dst) && (len src =? b - a)
+  then Val (firstnN a dst ++ src ++ skipnN b dst) else Fault Panic.
+
+(* uN::trailing_zeros at width w *)
+Fixpoint tz_pos (p : positive) : N := match p with xO q => N.succ (tz_pos q) | _ => 0 end.
+Definition tzcnt (w x : N) : N := match x with N0 => w | Npos p => tz_pos p end.
